@@ -29,6 +29,22 @@ claimed = {
    text="Bounded symbolic execution of the real collector decoder (decodePacket, decodeTemplateSet, decodeDataSet, getFieldLength, util.Decode, bytes.Buffer and encoding/binary from SSA) on packets whose every byte is a solver variable, for every explored template state and all three decoding modes. Totality is decided as a path outcome (any Go panic, any path over the instruction/allocation budget = violation); exactness is an SMT obligation against an independent reference parser of the set body; template messages are compared with a reference walk of the field specifiers.",
    note="Bounds: packets up to 20+12 (quick) / 20+24 (thorough) bytes for fixed-width templates and 20+6 / 20+9 bytes for templates with a variable-length field (paths grow as 2^body there); template layouts as listed in the evidence; template-set packets up to 20+12 / 20+20 bytes with the (element id, enterprise) of each specifier assumed to lie in a pool of 11 pairs. Longer packets are outside the bounded verdict.",
    tech="symbolic execution of Go SSA over all-symbolic packets + SMT; panic/hang as path outcomes; differential against a reference parser"),
+ "C01": dict(cat="model_checking", sec="DESIGN.md section 4, C01",
+   text="Composition of the real exporter and the real collector decoder under bounded symbolic execution: whatever template and symbolic-valued records are handed to SendSet, the bytes written are presented to decodePacket and the delivered message must carry the same observation domain, template fields (id, enterprise, type, length, name) in order, record count and bit-identical values - as SMT obligations over all values.",
+   note="PARTIAL by construction: transports are ASSUMED byte-faithful (one Write = one datagram / a byte stream); kernel sockets, TLS/DTLS record layers and IPv4/IPv6 listeners cannot be encoded and are not part of the verdict. Bounds: templates of 1..2 (quick) / 1..3 (thorough) fields, 1..3 records, boundary string lengths incl. the 65512-byte field that fills a 65535-byte message.",
+   tech="symbolic execution of Go SSA + SMT over exporter-then-collector composition, bounded"),
+ "C04": dict(cat="model_checking", sec="DESIGN.md section 4, C04",
+   text="Bounded histories of template / bad-template / data messages driven through the real decodePacket with the (observation domain, template id) of every message a pair of solver variables: the solver explores every aliasing pattern between keys; each data message must be decoded with exactly the template a reference association-list model holds for its key or be rejected, and the final template store must equal the model.",
+   note="Bounds: histories of 3 (quick) / 4 (thorough) messages over two template shapes and two kinds of bad template, tcp and udp flavours (no time passing). Longer histories outside the bounded verdict.",
+   tech="symbolic execution of Go SSA + SMT with symbolic map keys, differential against a reference model"),
+ "C16": dict(cat="model_checking", sec="DESIGN.md section 4, C16",
+   text="Bounded operation sequences over the real set/record builders (NewSet, PrepareSet, AddRecord, AddRecordWithExtraElements, AddRecordV2, UpdateLenInHeader, ResetSet) serialised by the real CreateIPFIXMsg: length bookkeeping after every operation, byte equality with the reference encoding, byte equality of the three add paths, and equality of a reused (reset) set with a fresh set replaying the same suffix - all values and ids symbolic.",
+   note="Bounds: one dirtying prefix + reset + prepare + 1..2 adds from a menu of 6 element lists; add-path comparison over all lists of 0..2 (quick) / 0..3 (thorough) elements from 10 kinds. Well-formed order only.",
+   tech="symbolic execution of Go SSA + SMT over bounded operation sequences"),
+ "C17": dict(cat="model_checking", sec="DESIGN.md section 4, C17",
+   text="The same reference-encoded wire bytes (templates interleaving known and unknown IANA/enterprise elements of fixed and variable length, records of symbolic values) are decoded by real collectors in strict, keep and drop mode and, reduced to the known fields, by a fourth: rejection, byte-exact preservation, exact omission and independence of known values are SMT obligations over all values.",
+   note="Bounds: 1..2 (quick) / 1..3 (thorough) template positions, unknown lengths {1,2,5,variable(0,3,255)}, 1..2 records.",
+   tech="symbolic execution of Go SSA + SMT, three-mode differential"),
 }
 
 NA = {
